@@ -5,6 +5,7 @@ MODULES = [
     "contracts.obs_init",
     "contracts.obs_derived",
     "contracts.obs_ops",
+    "contracts.obs_gamma",
     "contracts.corr",
     "contracts.readers",
     "contracts.dirac",
